@@ -245,3 +245,47 @@ From Verif Require Import GoFuncs GenEqNick.
 Theorem gen_C17_DefaultNewNick : forall old, go_client_DefaultNewNick old = default_new_nick_res old.
 Proof. exact go_DefaultNewNick_eq. Qed.
 Print Assumptions gen_C17_DefaultNewNick.
+
+(* generated-code tie, stage 2: the nick handlers.  The Gallina TRANSLATION of Conn.Me, h_NICK,
+   h_433 and h_001 (Gen/GoFuncs.v) takes conn.cfg.Me (an option of the tuple (Nick, Ident, Host,
+   Name): [onick]), conn.st (an option of an abstract tracker state, with the Tracker interface
+   as a record of functions [trk]), cfg.NewNick and the line fields, and returns the fields
+   written and the lines sent; a panic is Panic.  For EVERY Tracker record whose Me / NickInfo /
+   ReNick are the model tracker's, the result is the model's final state (and lines) when the
+   model does not panic and Panic exactly when it does (Proofs/GenEqHandlers.v). *)
+From Verif Require Import GoFuncs GenEqHandlers.
+Definition gen_tracker_agrees (trk : go_state_Tracker tracker) : Prop :=
+  (forall t, go_state_Tracker_Me trk t = (t, onick (tk_Me t)))
+  /\ (forall t n i h nm, go_state_Tracker_NickInfo trk t n i h nm
+        = (fst (tk_NickInfo t n i h nm), onick (snd (tk_NickInfo t n i h nm))))
+  /\ (forall t o n, go_state_Tracker_ReNick trk t o n
+        = (fst (tk_ReNick t o n), onick (snd (tk_ReNick t o n)))).
+Theorem gen_C17_Me : forall trk, gen_tracker_agrees trk -> forall s,
+  go_client_Conn_Me trk (onick (cfg_me s)) (c_st s)
+  = Ok (onick (cfg_me (fst (do_Me s))), c_st (fst (do_Me s)), onick (snd (do_Me s))).
+Proof. intros trk [H1 _]. exact (go_Me_eq trk H1). Qed.
+Theorem gen_C17_h_NICK : forall s l,
+  (r <- go_client_Conn_h_NICK (onick (cfg_me s)) (c_st s) (l_args l) (l_nick l) ;; Ok (r, c_st s))
+  = of_hout (h_NICK s l).
+Proof. exact go_h_NICK_eq. Qed.
+Theorem gen_C17_h_433 : forall trk, gen_tracker_agrees trk -> forall new_nick s l,
+  go_client_Conn_h_433 trk (onick (cfg_me s)) new_nick (c_st s) (l_args l)
+  = of_hout_out (h_433 new_nick s l).
+Proof. intros trk [H1 [_ H3]]. exact (go_h_433_eq trk H1 H3). Qed.
+Theorem gen_C17_h_001 : forall trk, gen_tracker_agrees trk -> forall s l,
+  go_client_Conn_h_001 trk (onick (cfg_me s)) (c_st s) (l_args l) (l_cmd l) (l_nick l)
+  = of_hout (h_001 s l).
+Proof. intros trk [H1 [H2 H3]]. exact (go_h_001_eq trk H1 H2 H3). Qed.
+(* the hypothesis is satisfiable: the model tracker itself, as a Tracker record *)
+Example gen_C17_tracker_instance : gen_tracker_agrees nh_tracker.
+Proof. exact nh_tracker_ok. Qed.
+(* the two representations of *state.Nick are in bijection *)
+Theorem gen_C17_nick_bijection :
+  (forall r, nick_untuple (nick_tuple r) = r) /\ (forall t, nick_tuple (nick_untuple t) = t).
+Proof. split; [exact nick_untuple_tuple | exact nick_tuple_untuple]. Qed.
+Print Assumptions gen_C17_Me.
+Print Assumptions gen_C17_h_NICK.
+Print Assumptions gen_C17_h_433.
+Print Assumptions gen_C17_h_001.
+Print Assumptions gen_C17_tracker_instance.
+Print Assumptions gen_C17_nick_bijection.
